@@ -523,6 +523,25 @@ def run(ck, F):
         if sites is not None and not sites:
             ck.undecided("R3", "builtin-decision", b["span"], "no use of the builtin table found in as_rust_type")
         elif sites is not None:
+            def conjuncts_of(ctx):
+                # `if a && b` taken: both hold
+                out = []
+                for c in ctx:
+                    if c[0] != "alt":
+                        continue
+                    stack = [(CE.expand(c[1]), c[2])]
+                    while stack:
+                        cond, br = stack.pop()
+                        while isinstance(cond, tuple) and cond and cond[0] == "not":
+                            cond, br = cond[1], not br
+                        if br is True and isinstance(cond, tuple) and cond and cond[0] == "binop" and cond[1] == "And":
+                            stack += [(cond[2], True), (cond[3], True)]
+                        elif br is False and isinstance(cond, tuple) and cond and cond[0] == "binop" and cond[1] == "Or":
+                            stack += [(cond[2], False), (cond[3], False)]
+                        else:
+                            out.append(("alt", cond, br))
+                return out
+            sites = [(sp_, conjuncts_of(ctx)) for sp_, ctx in sites]
             unguarded = [sp_ for sp_, ctx in sites if not any(c[0] == "alt" and _prefix_unbound(CE, c[1], c[2]) for c in ctx)]
             if not unguarded:
                 ck.ok("R3", "builtin-decision", b["span"], f"as_rust_type consults the builtin table ({len(sites)} site(s)) only where the prefix was looked up "
